@@ -786,6 +786,16 @@ func (f *STFS) Rename(oldname, newname string) error {
 		return err
 	}
 
+	// Renaming an entry to itself is a no-op
+	if oldname == newname {
+		return nil
+	}
+
+	// Prevent moving a directory into itself
+	if strings.HasPrefix(newname, strings.TrimSuffix(oldname, "/")+"/") {
+		return os.ErrInvalid
+	}
+
 	target, err := inventory.Stat(
 		f.metadata,
 
@@ -799,11 +809,10 @@ func (f *STFS) Rename(oldname, newname string) error {
 			return os.ErrExist
 		}
 
+		// Replace the target
 		if err := f.removeWithoutLocking(newname); err != nil {
 			return err
 		}
-
-		return err
 	}
 
 	return f.writeOps.Move(oldname, newname)
